@@ -129,17 +129,25 @@ Definition isnil {A} (l : list A) : bool := match l with [] => true | _ => false
 
 (* the four `filter` methods, after the repair (fixes/C19-1, C19-2):
    membership compares with the string values, `~` compiles the string and
-   uses the compiled object.  `not value` makes a missing or empty value
-   fail a regular-expression test.                                         *)
+   uses the compiled object.  A missing value fails a regular-expression
+   test; an empty value is matched like any other (fixes/C19-11: the code
+   used to say `if not value: return False`, see eval_atom_emptyfalse).     *)
 Definition eval_atom (a : atom) (e : env) : bool :=
   match a with
   | AEq v o => ostr_eqb (get v e) (oget o e)
   | AIn v l => match get v e with Some s => mem s l | None => false end
   | ANotIn v l => negb (match get v e with Some s => mem s l | None => false end)
   | ARegex v p => match get v e with
-                  | Some s => negb (isnil s) && re_match p s
+                  | Some s => re_match p s
                   | None => false
                   end
+  end.
+
+(* RegexExpr.filter before fixes/C19-11, literally: `if not value: return False` -- an empty value never matches *)
+Definition eval_regex_emptyfalse (v : var) (p : pattern) (e : env) : bool :=
+  match get v e with
+  | Some s => negb (isnil s) && re_match p s
+  | None => false
   end.
 
 (* LogicExpr.summary: [m1; (op1,m2); (op2,m3) ...] is nested to the left,
@@ -217,7 +225,7 @@ Definition meaning_atom (a : atom) (e : env) : Prop :=
   | AEq v o => get v e = oget o e
   | AIn v l => member v l e
   | ANotIn v l => ~ member v l e
-  | ARegex v p => exists s, get v e = Some s /\ s <> [] /\ matches p s
+  | ARegex v p => exists s, get v e = Some s /\ matches p s
   end.
 
 (* no precedence between `and` and `or`: the chain is read left to right *)
